@@ -10,7 +10,7 @@ rsync -a --exclude harness/target --exclude .git --exclude replay --exclude work
 sed -i "s|/repo/|$MX/repo/|g" $MX/verif/harness/Cargo.toml
 export VP_REPO=$MX/repo
 cd $MX/verif
-out=/verif/seeded/MATRIX.tsv
+out=${OUT:-/verif/seeded/MATRIX.tsv}
 : > $out.tmp
 seeds=${@:-$(ls -d /verif/seeded/*/ | xargs -n1 basename)}
 for s in $seeds; do
